@@ -472,6 +472,8 @@ theorem optBitmap_length : ∀ (fields : List Field) (fs : List Val) (bm : Bits)
       cases ho : fd.params.optional with
       | true =>
         simp only [ho, if_true] at h
+        split at h
+        · simp [Aper.panic] at h
         cases hb : optBitmap rest vs with
         | error e => rw [hb] at h; simp at h
         | ok b =>
